@@ -438,7 +438,7 @@ CHECKS["C20"]["rule"] += (" (1b) interleaving: with a second configuration marsh
                           "ParseJSON(json.Marshal(&cfg)) still yields cfg (the result does not depend on other JSON operations).")
 
 # large geometries (buffers of tens of kB up to the 8 MiB default, streams up to 400 kB)
-for _pid, _q, _t in [("C01", 60, 200), ("C02", 30, 120), ("C03", 100, 300), ("C14", 100, 300), ("C15", 40, 150), ("C16", 60, 200), ("C19", 30, 120), ("C08", 10, 60)]:
+for _pid, _q, _t in [("C01", 60, 200), ("C02", 30, 120), ("C03", 160, 400), ("C14", 100, 300), ("C15", 40, 150), ("C16", 120, 300), ("C19", 30, 120), ("C08", 10, 60)]:
     _sub = {"C15": 8, "C19": 6}.get(_pid, KINDS7)
     CHECKS[_pid]["quick"]["tests"].append({"test": "Test%sLarge" % _pid, "checks": _q, "subchecks": _sub})
     CHECKS[_pid]["thorough"]["tests"].append({"test": "Test%sLarge" % _pid, "checks": _t, "subchecks": _sub})
